@@ -12,7 +12,17 @@ LEVEL_TEXT = {
  "C12": ("model_checking", "Every random draw is a solver variable under randrange's contract, so the three generate() functions are decided for their whole outcome space at once; int(x/7) is handled through a QF_BVFP side lemma proved on every run.", "§7 C12"),
  "C13": ("model_checking", "Inductive step from the state after an arbitrary (symbolic, unbounded) number of requests + periodicity lemma + bounded model checking of every operation string through the public API with symbolic start values.", "§7 C13"),
 }
+LEVEL_TEXT.update({
+ "C04": ("model_checking", "Bounded model checking of the real EoWriter and EoReader together: write-op kinds are enumerated, every value is symbolic over its whole range (integers, arbitrary code points, raw bytes); z3 decides that each read returns the written value (strings: their cp1252 image) and that the output is consumed exactly.", "§7 C04"),
+ "C05": ("model_checking", "One operation from every reachable reader state (reached through the public API by a canonical prefix with symbolic parameters) over symbolic data, compared by z3 with an independent functional model of chunked reading; plus bounded model checking of operation sequences from the constructor.", "§7 C05"),
+ "C06": ("model_checking", "Bounded model checking of sanitising writer + chunked reader: chunk shapes enumerated, field values and read plans symbolic.", "§7 C06"),
+ "C09": ("model_checking", "Inductive step over an arbitrary writer pre-state (symbolic prefix and mode): one add_* call with symbolic arguments (unbounded integers, arbitrary strings, symbolic length/padded) against a reference image written from the protocol documentation.", "§7 C09"),
+})
 NOTE = {
+ "C04": "Trusted: z3, vsx interpreter, the cp1252 table stub (regenerated from the codec and compared with the repo interpreter on every run). Sequences longer than the bound are outside the solver-checked claim.",
+ "C05": "Trusted: z3, vsx interpreter, the O-reader model as the reading of the documented chunked-reading rules; the canonical-prefix reachability argument (DESIGN.md).",
+ "C06": "Trusted: z3, vsx interpreter, cp1252 table stub.",
+ "C09": "Trusted: z3, vsx interpreter, cp1252 table stub, the reference image functions in harness/vh_wire.py.",
  "C07": "Trusted: z3, the vsx interpreter's rendering of Python int/bytes semantics (cross-checked per run by native replay of one solver model per explored path).",
  "C08": "Trusted: z3, vsx interpreter (bytearray cell semantics, in-place reverse), native replay as cross-check. Strings longer than the bound are outside the claim.",
  "C10": "Trusted: z3 (non-linear integer arithmetic for x mod m with symbolic m), vsx interpreter; exact integer encoding of & and ^ on bytes. Data longer than the bound is outside the claim; pipelines use concrete multiples.",
@@ -21,6 +31,10 @@ NOTE = {
  "C13": "Trusted: z3, vsx interpreter's object model (attributes, properties, inheritance).",
 }
 TECH = {
+ "C04": "bounded symbolic execution of writer+reader + z3, op kinds enumerated, values symbolic",
+ "C05": "inductive step from canonical reachable states + BMC, differential against O-reader model, z3",
+ "C06": "bounded symbolic execution of sanitising writer + chunked reader + z3, read plans value-forked",
+ "C09": "inductive step by symbolic execution + z3 against reference wire image",
  "C07": "symbolic execution of the real source (AST interpreter) + z3 LIA, full-domain",
  "C08": "bounded symbolic execution with if-conversion + z3, per length",
  "C10": "bounded symbolic execution + z3 (NIA for symbolic multiple), per length",
